@@ -1,6 +1,7 @@
 import RisorModel.Util
 import RisorModel.C08.Model
 import RisorModel.C08.Heap
+import RisorModel.C08.Reg
 /-!
 Line-protocol front end of the C08 model (requests after the leading `C08` field).
 
@@ -29,6 +30,14 @@ Requests (reply: impl-result TAB spec-on-go TAB spec-on-impl TAB guard-ids):
                         converter of T into fresh slots;  GO = (seq R*), R = panic | error | (ok V)
   callseq T OS GO       a series of calls of one method `func (h *Host) E(x T) T`, one per object of
                         OS = (l O*);  GO = (seq R*), R = panic | error | (ok V O)
+  firstuse SCHED I N A REQ…   the inner request REQ (a complete `get` or `call` request: its fields
+                        follow) made by goroutine I while other goroutines use the SAME, never
+                        seen Go type: SCHED = u<k> | w, comma separated, is the interleaving the
+                        harness aimed at (u<k>: goroutine k calls NewGoType, w: a step of the
+                        goroutine inside newGoType), N the number of attributes of the type, A the
+                        attribute REQ looks up.  The locked registry machine of Reg.lean runs on
+                        SCHED; goroutine I's lookup of A in the description it is handed decides
+                        between REQ's own reply and `error` ("attribute not found").
   hist ROOTS HEAP OPS GO   a history over an object graph (Heap.lean).
                         ROOTS = (roots A*)  the object each global name g0, g1, … stands for
                         HEAP  = (heap NODE*), NODE = (i N) | (r A) | (r -) | (st NODE*) | (seq NODE*)
@@ -579,7 +588,7 @@ def histReply (roots : List Nat) (h : Heap) (ops : List HOp) (go : List (Heap ×
       | [] => "-"
       | e :: _ => toString e.1)
 
-def handle : List String → String
+def handleBase : List String → String
   | ["hist", roots, heap, ops, go] =>
     match parseAll pRoots roots, parseAll pHeap heap, parseAll pOpsList ops with
     | some roots, some heap, some ops =>
@@ -707,5 +716,24 @@ def handle : List String → String
         (if hist.all (fun b => hasTy b.2.1 b.2.2) then "typed" else "illtyped")
     | _, _, _ => "error\tbad-request"
   | _ => "error\tunknown-request"
+
+def pEv (s : String) : Option Reg.Ev :=
+  if s == "w" then some .work
+  else if s.startsWith "u" then (s.drop 1).toNat?.map (fun k => Reg.Ev.use k 0)
+  else none
+
+def pSched (s : String) : Option (List Reg.Ev) := (s.splitOn ",").mapM pEv
+
+def handle : List String → String
+  | "firstuse" :: sched :: i :: n :: a :: inner =>
+    match pSched sched, i.toNat?, n.toNat?, a.toNat? with
+    | some evs, some i, some n, some a =>
+      -- the type under first use is type 0 with the attributes 0 … n-1
+      match Reg.lookup (Reg.run (fun _ => List.range n) Reg.init evs) i a true false with
+      | none => "error\tgoroutine-never-served"
+      | some true => handleBase inner
+      | some false => "error\tviol\tviol\t-"     -- the attribute is "not found"
+    | _, _, _, _ => "error\tbad-request"
+  | req => handleBase req
 
 end Risor.C08
